@@ -6,7 +6,7 @@ from pathlib import Path
 import importlib
 import re
 
-from harness.manifest_data import CLAIMED, NOT_YET, PROPS
+from harness.manifest_data import CLAIMED, NOT_YET, PROPS, READY
 
 # a property module may carry its own manifest entry: MANIFEST = dict(text=, note=, technique=, design_ref=)
 for _f in sorted(Path("/verif/harness/props").glob("c[0-9][0-9].py")):
@@ -34,6 +34,9 @@ def repo_hook_commits():
 
 
 def main():
+    for k in list(CLAIMED):
+        if k not in READY:
+            del CLAIMED[k]
     checks = []
     for pid in PROPS:
         if pid not in CLAIMED:
